@@ -868,7 +868,9 @@ where
                     let vic_elem = unsafe { &victim.as_ref().element };
                     if let Some((_vic_key, vic_entry)) = self
                         .cache
-                        .remove_if(vic_elem.key(), |_, v| v.has_entry_info(vic_elem.entry_info()))
+                        .remove_if(vic_elem.key(), |_, v| {
+                            v.has_entry_info(vic_elem.entry_info()) && !v.is_dirty()
+                        })
                     {
                         // And then remove the victim from the deques.
                         Self::handle_remove(deqs, vic_entry, counters);
@@ -957,14 +959,18 @@ where
                 next_victim = DeqNode::next_node_ptr(victim);
                 let vic_elem = &unsafe { victim.as_ref() }.element;
 
-                if let Some(vic_entry) = cache.get(vic_elem.key()) {
+                // An entry with a pending update (dirty) is not a victim: its weight has
+                // already been replaced by the one of the queued update, which is not the
+                // weight this cache has counted for it. Skip it like the eviction and
+                // expiration do; the queued update will move it to the MRU position.
+                if let Some(vic_entry) = cache.get(vic_elem.key()).filter(|e| !e.is_dirty()) {
                     victims.add_policy_weight(vic_entry.policy_weight());
                     victims.add_frequency(freq, vic_elem.hash());
                     victim_nodes.push(victim);
                     retries = 0;
                 } else {
-                    // Could not get the victim from the cache (hash map). Skip this node
-                    // as its ValueEntry might have been invalidated.
+                    // Could not get the victim from the cache (hash map), or it has a
+                    // pending update. Skip this node.
                     skipped_nodes.push(victim);
 
                     retries += 1;
